@@ -13,6 +13,7 @@ fi
 export SRC=$WT LIB=$WT/_b/libIPhreeqcrwd.a
 rundemo() { # dir -> exit code
   local d=$1; local t=/var/tmp/seeddemo_$d; rm -rf $t; mkdir -p $t; cp /verif/seeded/$d/* $t/; (cd $t && timeout 600 bash -c "$(grep -v '^#' RUN.txt | head -1)" >$t/demo.out 2>&1); local rc=$?; echo $rc; }
+git -C $WT checkout -q -- . ; git -C $WT reset -q --hard $(git -C /repo rev-parse HEAD); (cd $WT && cmake --build _b -j14 >/dev/null 2>&1)
 for d in $SEEDS; do
   d=${d%/}
   base=$(rundemo $d)
@@ -26,6 +27,7 @@ for d in $SEEDS; do
     summ=$(grep "tests passed" /var/tmp/seedctest.log | head -1)
   else crc=-; summ=-; fi
   git -C $WT checkout -- . ; git -C $WT clean -fdq -e _b
+  (cd $WT && cmake --build _b -j14 >/dev/null 2>&1)      # back to the unchanged library before the next seed's baseline demo
   echo -e "$d\tbase_demo=$base\tbuild=$b\tpatched_demo=$patched\tctest_rc=$crc\t$summ\t$(cat /var/tmp/seeddemo_$d.tail | cut -c1-200)" >> $OUT
   rm -rf /var/tmp/seeddemo_$d /var/tmp/seeddemo_$d.tail
 done
